@@ -4,9 +4,42 @@
    [istr] (Model.v) is the object at buffer level: capacity, character type, the Capacity+1
    characters, the size field; both layouts.  [run (default_str c ck) ops] executes a history from
    the empty string.  [cap_ok c]: 0 <= c < 2^62.  [op_wf]: the numeric arguments are size_t values. *)
-From Tetl Require Import Lib.Base C08.Model C08.Spec C08.Core C04.Model C04.Spec C04.Inv C04.InvOps C04.Refuted.
+From Tetl Require Import Lib.Base C08.Model C08.Spec C08.Core C04.Model C04.Spec C04.Inv C04.InvOps C04.Refuted
+  C04.RefineBase C04.RefineOps1 C04.Refine.
 Local Open Scope Z_scope.
 
+(** * Refinement: the model is std::basic_string wherever the std result fits into the capacity.
+      [Spec.spec_step l o] is std::basic_string's operation on the character list l ([None]: std throws
+      out_of_range or the call violates a precondition of the standard); [sop_of] maps a model operation to
+      the std operation with the same arguments; [spec_run_fits c] runs a history and requires every
+      intermediate std result to have at most c characters; [contents s] = the first size() characters. *)
+
+(* EVERY history from the empty string, for EVERY capacity (both layouts) and character type: if std defines
+   every step and every intermediate result fits, the model returns (no precondition failure, no access
+   outside the array), and contents, size() and the terminator are those of the std string.
+   (A prefix of such a history is such a history, so this holds after every step.) *)
+Theorem C04_history_refines_std : forall c ck ops l', cap_ok c -> Forall op_wf ops ->
+  spec_run_fits c [] (map sop_of ops) = Some l' ->
+  exists s', run (default_str c ck) ops = Ok s' /\ contents s' = l' /\ get_size s' = slen l' /\
+             terminator s' = 0 /\ cap s' = c /\ ckind s' = ck /\ zlen (buf s') = c + 1.
+Proof. exact history_refines. Qed.
+Print Assumptions C04_history_refines_std.
+
+(* one operation from ANY state satisfying the invariant *)
+Theorem C04_step_refines_std : forall s o l', inv s -> op_wf o ->
+  spec_step (contents s) (sop_of o) = Some l' -> slen l' <= cap s ->
+  exists s', step s o = Ok s' /\ (inv s' /\ cap s' = cap s /\ ckind s' = ckind s) /\ contents s' = l'.
+Proof. exact step_refines. Qed.
+Print Assumptions C04_step_refines_std.
+
+(* the executable [spec_step_fits] used by the spec leg of the correspondence run is exactly
+   "std defines the result and it has at most c characters" *)
+Theorem C04_spec_step_fits_iff : forall c l o l', sop_nonneg o ->
+  spec_step_fits c l o = Some l' <-> spec_step l o = Some l' /\ slen l' <= c.
+Proof. exact spec_step_fits_iff. Qed.
+Print Assumptions C04_spec_step_fits_iff.
+
+(** * The representation invariant, also for the histories that do NOT fit (clamping appends etc.) *)
 (* After EVERY history that returns (including the appending operations that clamp to capacity),
    for EVERY capacity (tiny layout < 16 <= normal layout) and character type: the array still has
    Capacity+1 characters, size() <= capacity() and the character at index size() is the null character. *)
@@ -47,9 +80,11 @@ Print Assumptions C04_rfind_default_refuted.
 Example C04_nonvacuous :
   cap_ok 15 /\ cap_ok 16 /\ Forall op_wf [OAppendFill 15 97; OSwapWith [98]; OResize 3 99] /\
   (exists s', run (default_str 15 CChar) [OAppendFill 15 97; OSwapWith [98]; OResize 3 99] = Ok s' /\
-              contents s' = [98; 99; 99]).
+              contents s' = [98; 99; 99]) /\
+  spec_run_fits 15 [] (map sop_of [OAppendFill 15 97; OSwapWith [98]; OResize 3 99]) = Some [98; 99; 99] /\
+  spec_run_fits 16 [] (map sop_of [OAppendFill 16 97; OInsertPtr 3 [98; 99] 0; OErase 1 18446744073709551615]) = Some [97].
 Proof.
   unfold cap_ok, szt. repeat split; try lia.
   - repeat constructor; cbn; unfold szt; lia.
-  - eexists. split; vm_compute; reflexivity.
+  - eexists. split; [vm_compute; reflexivity|]. vm_compute. reflexivity.
 Qed.
